@@ -12,7 +12,7 @@ if os.path.exists(p):
             rob[m.group(1)] = m.group(2)
 def key(d):
     n = os.path.basename(d); a, b = n.split("-"); return (a, int(b))
-rows = ["| change | what it does | needs to manifest | suite with patch | demo with/without | caught | tier | signature | seeds 1-4 |", "|---|---|---|---|---|---|---|---|---|"]
+rows = ["| change | what it does | needs to manifest | suite with patch | demo with/without | caught | tier | signature | quick tier, seeds 1-3 |", "|---|---|---|---|---|---|---|---|---|"]
 def clip(s, n=260):
     s = s.replace("|", "/").replace("\n", " ")
     return s if len(s) <= n else s[:n].rstrip() + " ..."
